@@ -175,7 +175,7 @@ func checkC12(w *Worker) {
 					r = AppRun{Stdout: br.Stdout, Failed: br.Code != 0, Err: firstLine(br.Stderr)}
 					logRun(rc, r)
 				} else {
-					r = runApp(rc)
+					return cachedRun(cache, 300000, key, rc)
 				}
 				if len(cache) < 300000 {
 					cache[key] = r
